@@ -330,9 +330,13 @@ class Decoder:
             Any: IRI, based on adapter implementation, e.g., rdflib.term.URIRef
 
         """
+        return self.adapter.iri(iri=self.decode_iri_string(iri))
+
+    def decode_iri_string(self, iri: jelly.RdfIri) -> str:
+        """Resolve RdfIri message to the full IRI string (prefix + name)."""
         name = self.names.decode_name_term_index(iri.name_id)
         prefix = self.prefixes.decode_prefix_term_index(iri.prefix_id)
-        return self.adapter.iri(iri=prefix + name)
+        return prefix + name
 
     def decode_default_graph(self, _: jelly.RdfDefaultGraph) -> Any:
         return self.adapter.default_graph()
@@ -382,7 +386,7 @@ class Decoder:
         self,
         declaration: jelly.RdfNamespaceDeclaration,
     ) -> Any:
-        iri = self.decode_iri(declaration.value)
+        iri = self.decode_iri_string(declaration.value)
         return self.adapter.namespace_declaration(declaration.name, iri)
 
     def decode_graph_start(self, graph_start: jelly.RdfGraphStart) -> Any:
